@@ -278,7 +278,7 @@ def run_case(ctx, case):
             f, ln = events[at]
             o.cls = "schedule-dependent"
             o.viol("curve|%s|%s-vs-%s" % (name, a, b),
-                   "%s: A=%s preempted at " + level + " event %d (%s:%d) by B=%s: A -> %r (expected %r), B -> %r (expected %r)" % (
+                   ("%s: A=%s preempted at " + level + " event %d (%s:%d) by B=%s: A -> %r (expected %r), B -> %r (expected %r)") % (
                        name, a, at, f.rsplit("/", 1)[-1], ln, b, ra, ea, rb, eb))
             break
     o.extra = {"preemption_points": n, "capped_line_occurrences": skipped, "opcode_level_points": n if level == "opcode" else 0}
